@@ -135,6 +135,8 @@ fn a_mat(r: usize, c: usize, s: i64, dd: bool) -> M {
         "mat.delete_row" => { for k in r..or { m.delete_row(if k % 2 == 0 { 0 } else { m.rows() - 1 }); } }
         "mat.transpose_in_place" => m.transpose_in_place(),
         "mat.clear" => m.clear(),
+        // same rows*cols throughout: 1 x rc -> rc x 1 -> c x r -> r x c
+        "mat.reshape_chain" => { m.resize(r * c, 1); m.resize(c, r); m.resize(r, c); }
         _ => { m.clear(); m.resize(r, c); }
     }
     for i in 0..r { for j in 0..c { m[(i, j)] = f[(i, j)]; } }
@@ -159,6 +161,7 @@ fn a_tri(n: usize, s: i64) -> T3 {
 fn a_sparse(r: usize, c: usize) -> S {
     let ct = match aged("sparse.") { Some(ct) => ct, None => return sparse(r, c) };
     if ct.prep == "sparse.transpose" { return sparse(c, r).transpose(); }
+    if ct.prep == "sparse.transpose2" { return sparse(r, c).transpose().transpose(); }
     let mut a = sparse(r, c);
     if r > 0 && c > 0 { a.insert(r - 1, 0, 5.0); a.insert(0, c - 1, 5.0); a.insert(0, 0, 9.0); a.insert(r / 2, c / 2, 7.0); }
     a
@@ -169,6 +172,7 @@ fn a_poly(len: usize, s: i64) -> Pl {
     let mut p = match c.prep.as_str() {
         "poly.push" => { let mut p = poly(o, s + 50); for _ in o..len { p.coeffs().push(0.0); } p }
         "poly.pop" => { let mut p = poly(o, s + 50); for _ in len..o { p.coeffs().pop(); } p }
+        "poly.pop_push" => { let mut p = poly(o, s + 50); p.coeffs().pop(); p.coeffs().push(0.0); p }
         _ => { let mut d: Vec<f64> = (0..len).map(|k| 1.0 + k as f64).collect(); for _ in len..o { d.push(0.0); } let mut p = Pl::new(d); p.trim(); p }
     };
     for k in 0..len { p[k] = el(s, k); }
@@ -556,13 +560,13 @@ fn mutate(obj: &mut Obj, o: &Value, other: Option<&Obj>) {
         Obj::Vec(v) => match op { "set" => v[i] = x(), "push" => v.push(x()), "pop" => { v.pop(); } "swap" => v.swap(i, getu(o, "i2")),
             "scale" => *v *= s(), "shift" => *v += s(), "clear" => v.clear(),
             "resize" => v.resize(getu(o, "nr")), "insert" => v.insert(i, x()),
-            "add_obj" => { if let Some(Obj::Vec(w)) = other { *v += w.clone(); } else { bad_op("vec", op) } } _ => bad_op("vec", op) },
+            "add_obj" => { if let Some(Obj::Vec(w)) = other { *v += w.clone(); } else { panic!("add_obj: the borrowed object is missing (an earlier step failed)") } } _ => bad_op("vec", op) },
         Obj::Poly(p) => match op { "set" => p[i] = x(), "push" => p.coeffs().push(x()), "pop" => { p.coeffs().pop(); } "scale" => { let q = &*p * s(); *p = q; } "trim" => p.trim(), _ => bad_op("poly", op) },
-        Obj::Mat(m) => match op { "add_obj" => { if let Some(Obj::Mat(w)) = other { *m += w; } else { bad_op("mat", op) } }
+        Obj::Mat(m) => match op { "add_obj" => { if let Some(Obj::Mat(w)) = other { *m += w; } else { panic!("add_obj: the borrowed object is missing (an earlier step failed)") } }
             _ => { if crate::suites::dense::step::<f64>(m, o).panic { panic!("dense step panicked"); } } },
         Obj::Band(b) => match op { "set" => b[(i, j)] = x(), "fill" => b.fill(x()), "fill_band" => b.fill_band(geti(o, "off") as isize, x()), "scale" => *b *= s(),
             "resize_fill" => { b.resize(getu(o, "nr"), i, j); b.fill(x()); }
-            "add_obj" => { if let Some(Obj::Band(w)) = other { *b += w; } else { bad_op("band", op) } } _ => bad_op("band", op) },
+            "add_obj" => { if let Some(Obj::Band(w)) = other { *b += w; } else { panic!("add_obj: the borrowed object is missing (an earlier step failed)") } } _ => bad_op("band", op) },
         Obj::Tri(t) => match op { "set" => t[(i, j)] = x(), "transpose_in_place" => t.transpose_in_place(), "scale" => *t *= s(), "shift" => *t += s(), "resize" => t.resize(getu(o, "nr")), _ => bad_op("tri", op) },
         Obj::Sparse(a) => match op { "set" => a.insert(i, j, x()), "scale" => a.scale(&s()), _ => bad_op("sparse", op) },
         Obj::Mesh1(m) => match op { "set_row" => m.set_nodes_vars(i, f64vec_from(&o["v"])), "set" => m[i][j] = x(),
@@ -687,7 +691,10 @@ fn rand_mut(rng: &mut rand::rngs::StdRng, sh: &mut Sh, peers: &[i64], adds: &mut
             2 => Some(json!({"op": "fill", "x": rv(rng)})),
             3 | 4 => Some(json!({"op": "fill_band", "off": rng.gen_range(-(sh.a as i64)..=(sh.b as i64)), "x": rv(rng)})),
             5 => Some(json!({"op": "scale", "s": -1})),
-            6 => { let n = rng.gen_range(1..=4usize); sh.r = n; sh.c = n; sh.a = rng.gen_range(0..n); sh.b = rng.gen_range(0..n); Some(json!({"op": "resize_fill", "nr": n, "i": sh.a, "j": sh.b, "x": rv(rng)})) }
+            6 => { // half of the band resizes keep n and m1 + m2 and change only the split (or nothing)
+                   if rng.gen_bool(0.5) { let tot = sh.a + sh.b; sh.a = rng.gen_range(0..=tot).min(r - 1); sh.b = (tot - sh.a).min(r - 1); }
+                   else { let n = rng.gen_range(1..=4usize); sh.r = n; sh.c = n; sh.a = rng.gen_range(0..n); sh.b = rng.gen_range(0..n); }
+                   Some(json!({"op": "resize_fill", "nr": sh.r, "i": sh.a, "j": sh.b, "x": rv(rng)})) }
             _ => add_obj(rng, adds) },
         "tri" => match pick {
             0 | 1 | 2 => { let i = rng.gen_range(0..r); let lo = i.saturating_sub(1); let hi = (i + 1).min(r - 1); Some(json!({"op": "set", "i": i, "j": rng.gen_range(lo..=hi), "x": rv(rng)})) }
